@@ -118,6 +118,39 @@ theorem live_part_decodes_rtmp (l : List InMsg) (h : ∀ m ∈ l, LiveWF m) :
     rfl
   rw [e]; exact this
 
+/-- the message a relay-push target must decode for a published message: as `asChunkMsg`, but metadata carries the
+    leading @setDataFrame string (added when the publisher did not send it) -/
+def asPushMsg (m : InMsg) : Chunk.Msg :=
+  { hdr := defaultHeader m.typ m.ts (withSdf m.typ m.payload).length, payload := withSdf m.typ m.payload }
+
+def PushWF (m : InMsg) : Prop :=
+  (m.typ = 8 ∨ m.typ = 9 ∨ m.typ = 18) ∧ withSdf m.typ m.payload ≠ [] ∧
+  (withSdf m.typ m.payload).length < 16777216 ∧ m.ts < 4294967296
+
+/-- Relay push (the @setDataFrame form, `LazyRtmpChunkDivider.GetEnsureWithSdf`): the chunks lal writes to a push
+    target for any list of published messages are decoded by the RTMP specification reader into exactly those messages,
+    metadata with its @setDataFrame prefix, the announced message length being the length of the payload sent. (The
+    `lazy.msg` op ties `chunksWithSdf` to the real type on every run.) -/
+theorem push_form_decodes (l : List InMsg) (h : ∀ m ∈ l, PushWF m) :
+    ChunkSpec.read Gen.localChunkSize (l.flatMap chunksWithSdf) = some (l.map fun m => ChunkEnc.toSpec (asPushMsg m)) := by
+  have hwf : ∀ x ∈ l.map asPushMsg, Props.C08.MsgWF x := by
+    intro x hx
+    obtain ⟨m, hm, rfl⟩ := List.mem_map.mp hx
+    obtain ⟨ht, hne, hlen, hts⟩ := h m hm
+    refine ⟨⟨rfl, hlen, hts, ?_, ?_, ?_, ?_, ?_⟩, hne⟩
+    all_goals (simp only [asPushMsg, defaultHeader]; rcases ht with h | h | h <;> simp [h])
+  have := Props.C08.enc_dec_spec Gen.localChunkSize (by decide) (l.map asPushMsg) hwf
+  simp only [List.flatMap_map, List.map_map] at this
+  have e : l.flatMap chunksWithSdf = l.flatMap (fun m => Props.C08.enc Gen.localChunkSize (asPushMsg m)) := by
+    simp only [List.flatMap, Props.C08.enc, asPushMsg, chunksWithSdf]
+    rfl
+  rw [e]; exact this
+
+/-- non-vacuity: a metadata message that starts directly with `onMetaData` is such a message, and its push form begins
+    with the added @setDataFrame string -/
+example : (withSdf 18 [2, 0, 10, 111, 110, 77, 101, 116, 97, 68, 97, 116, 97, 5]).take 16 =
+    [2, 0, 13, 64, 115, 101, 116, 68, 97, 116, 97, 70, 114, 97, 109, 101] := by decide
+
 /-- Composition with C11: the tags of the live part of an HTTP-FLV subscriber's stream are read by the
     FLV specification reader as exactly the published messages. -/
 theorem live_part_decodes_flv (l : List InMsg) (h : ∀ m ∈ l, LiveWF m) :
